@@ -212,7 +212,17 @@ def chunk_rule(prog, rep):
         seen, todo = set(), [cj]
         while todo and bad is None:
             x = todo.pop()
-            for nm in [n for n in ast.walk(x) if isinstance(n, ast.Name) and isinstance(n.ctx, ast.Load)]:
+            # asking whether a chunk exists yet (len(acc) > 0, `acc` tested for truth) and the last chunk's key value are the run test itself
+            skip = set()
+            for n in ast.walk(x):
+                if isinstance(n, ast.Call) and norm(n) == f"len({acc})":
+                    skip |= {id(y) for y in ast.walk(n)}
+                if isinstance(n, ast.Subscript) and norm(n) == f"{acc}[-1].data[{key}]":
+                    skip |= {id(y) for y in ast.walk(n)}
+                for t in ([n.test] if isinstance(n, ast.IfExp) else n.values if isinstance(n, ast.BoolOp) else [n.operand] if isinstance(n, ast.UnaryOp) and isinstance(n.op, ast.Not) else []):
+                    if isinstance(t, ast.Name) and t.id == acc:
+                        skip.add(id(t))
+            for nm in [n for n in ast.walk(x) if isinstance(n, ast.Name) and isinstance(n.ctx, ast.Load) and id(n) not in skip]:
                 if nm.id == acc:
                     bad = (cj, f"it depends on the chunks built so far (`{acc}`)")
                     break
